@@ -293,6 +293,34 @@ impl BoundsAnalyzer {
         analyzer
     }
 
+    /// Inferred ranges are enforced only through the domains `apply_to_domain`
+    /// publishes. When the analysis proves the model infeasible (a
+    /// contradiction froze it, or an integer variable is left without an
+    /// integral point) those domains keep their declared form, so nothing would
+    /// enforce the inferred ranges while operand pruning and big-M constants
+    /// rely on them: fall back to the declared ranges and let the constraint
+    /// rows carry the infeasibility to the solver.
+    pub(crate) fn enforceable(self, domain: &IndexMap<String, DomainVariable>) -> Self {
+        let empty_integer_range = domain.iter().any(|(name, variable)| {
+            let VariableType::IntegerRange(_, _) = variable.get_type() else {
+                return false;
+            };
+            self.variable_bounds.get(name).is_some_and(|bounds| {
+                (bounds.lower - self.tolerance).ceil() > (bounds.upper + self.tolerance).floor()
+            })
+        });
+        if self.detected_infeasible || empty_integer_range {
+            Self {
+                tolerance: self.tolerance,
+                detected_infeasible: self.detected_infeasible,
+                reached_iteration_limit: self.reached_iteration_limit,
+                ..Self::from_domain(domain)
+            }
+        } else {
+            self
+        }
+    }
+
     pub(crate) fn bounds_of(&self, exp: &Exp) -> Bounds {
         match exp {
             Exp::Number(value) => Bounds::singleton(*value),
